@@ -31,10 +31,11 @@ def listing_orders(n):
 
 
 class Node:
-    __slots__ = ("content",)
+    __slots__ = ("content", "ino")
 
     def __init__(self, content):
         self.content = content
+        self.ino = None
 
 
 class Partial:
@@ -266,7 +267,15 @@ class AFS:
                 size = eng().int("st_size:%s" % r, 2, None)
         m = self.mtime.get(r, 1)
         nlink = 1 if isdir else sum(1 for n in self.files.values() if n is self.files[r])
-        return types.SimpleNamespace(st_size=size, st_mode=(0o040755 if isdir else 0o100644), st_ino=self.ino.setdefault(r, len(self.ino) + 100),
+        if isdir:
+            ino = self.ino.setdefault(r, len(self.ino) + 100)
+        else:
+            # the inode belongs to the file, not to the name: every hard link reports the same number
+            node = self.files[r]
+            if getattr(node, "ino", None) is None:
+                node.ino = self.ino.setdefault(("node", id(node)), len(self.ino) + 100)
+            ino = node.ino
+        return types.SimpleNamespace(st_size=size, st_mode=(0o040755 if isdir else 0o100644), st_ino=ino,
                                      st_mtime_ns=m * 1000000000, st_mtime=float(m), st_ctime_ns=m * 1000000000, st_ctime=float(m),
                                      st_dev=1, st_nlink=nlink, st_uid=0, st_gid=0, st_atime=float(m), st_atime_ns=m * 1000000000)
 
